@@ -262,6 +262,17 @@ func runReplayOnce(bin, path string, v *Violation) string {
 		if strings.HasPrefix(line, want) {
 			return "reproduced"
 		}
+		// a codec-confusion candidate ends the symbolic path where the bytes stop being modelled:
+		// it is confirmed by whatever the real run does with those bytes — a panic, or any
+		// assertion of the property under check failing
+		if v.Kind == "codec-confusion" {
+			if strings.HasPrefix(line, "REPLAY-PANIC") {
+				return "reproduced"
+			}
+			if l, ok := strings.CutPrefix(line, "REPLAY-ASSERT-FAILED "); ok && labelApplies(strings.TrimSpace(l), v.Prop) {
+				return "reproduced"
+			}
+		}
 	}
 	return "not-reproduced: " + shorten(strings.ReplaceAll(s, "\n", " | "), 400)
 }
